@@ -193,6 +193,34 @@ def run_case(case):
                 if d:
                     bad("result depends on the global NumPy seed although random_state is an integer", "global seed",
                         "%s variant=%s data=%d" % (d, case["variant"], i))
+    # other instances: a model fitted on D_i is not changed by constructing and fitting a second object of the same
+    # configuration on D_j (shared default estimators, module-level caches, class attributes), and the second is the model a
+    # fresh process would have produced
+    for (i, j) in ((0, 1), (1, 0), (0, 3), (2, 0)):
+        if i >= nd or j >= nd:
+            continue
+        fa, fb = fresh_obs(i, 0), fresh_obs(j, 0)
+        if fa[0] != "ok" or fb[0] != "ok":
+            continue
+        cnt += 1
+        trans += 2
+        try:
+            a_ = make()
+            oa1 = fit_obs(a_, i, 0)
+            b_ = make()
+            ob = fit_obs(b_, j, 0)
+            oa2 = K.observe(a_, kind, D[i])
+        except Exception as ex:
+            bad("interleaved instances raise %s" % type(ex).__name__, "two instances", "%s variant=%s data %d then %d" % (str(ex)[:200], case["variant"], i, j))
+            continue
+        d = K.same_obs(oa1, oa2, exact=True)
+        if d:
+            bad("a fitted model changes when another instance of the same configuration is fitted", "two instances",
+                "%s variant=%s first on data %d, second on data %d" % (d, case["variant"], i, j))
+        d = K.same_obs(fb[1], ob)
+        if d:
+            bad("a model fitted after another instance of the same configuration differs from a model fitted alone", "two instances",
+                "%s variant=%s first on data %d, second on data %d" % (d, case["variant"], i, j))
     # the training set is its values: the same X, y stored behind another memory layout (Fortran order, strided window,
     # negative strides, transposed window, read-only) gives the same model
     if kind in ("reg", "clf", "cluster", "poly", "nmf", "recip"):
